@@ -60,6 +60,7 @@ type reAtom struct {
 	rows       []reRow
 	anchored   bool
 	literal    bool
+	initErr    bool
 }
 
 var valueProfiles = [][]string{
@@ -203,7 +204,27 @@ func genRegexText(r *hx.Rng, vals []string) string {
 	}
 	pre := string(rs[:1+r.Intn(len(rs))])
 	suf := string(rs[r.Intn(len(rs)):])
-	switch r.Intn(20) {
+	switch r.Intn(30) {
+	case 20:
+		return ".*" + q(sub()) + ".*"
+	case 21:
+		return ".+" + q(sub()) + []string{".+", ".*"}[r.Intn(2)]
+	case 22:
+		return ".*" + q(sub()) + ".+"
+	case 23:
+		return q(pre) + ".*" + q(suf)
+	case 24:
+		return "(" + q(pre) + ")(" + q(suf) + ")" + []string{"", ".*", "x?"}[r.Intn(3)]
+	case 25:
+		return "[" + q(string(rs[:1])) + "x]" + q(string(rs[1:]))
+	case 26:
+		return q(string(rs[:1])) + "{1,2}" + q(string(rs[1:]))
+	case 27:
+		return "(?:" + q(v) + "|" + q(pre) + ")" + []string{"", "$", ".*"}[r.Intn(3)]
+	case 28:
+		return "^" + q(pre) + ".+"
+	case 29:
+		return ".+" + q(suf) + "$"
 	case 0, 1:
 		return q(sub())
 	case 2:
